@@ -9,7 +9,7 @@
 (* A scenario is printed when the Model terminates, with the Model's expected observations.       *)
 EXTENDS Redirect, Json
 
-CONSTANTS Family, ShardK, ShardS, SampleKB, SampleKH, Seed, LmaxB, LmaxH, Codes, Alpha, ClientFilter
+CONSTANTS Family, ShardK, ShardS, SampleKB, SampleKH, CfgKH, Seed, LmaxB, LmaxH, Codes, Alpha, ClientFilter
 
 -----------------------------------------------------------------------------
 \* sites: <<scheme, host as written, port as written (0 = none)>>
@@ -29,10 +29,12 @@ U(site, path) == [scheme |-> site[1], host |-> site[2], port |-> site[3], path |
 H(code, form, site, ref) == [code |-> code, form |-> form, scheme |-> site[1], host |-> site[2], port |-> site[3], ref |-> ref]
 
 \* policies
-R(t, r, raise, rm, sp) == [kind |-> "retry", total |-> t, redirect |-> r, raise |-> raise, remove |-> rm, rmsp |-> sp]
-Rd(t, r, raise) == R(t, r, raise, DefaultRemove, "default")
-I(n) == [kind |-> "int", total |-> n, redirect |-> N, raise |-> TRUE, remove |-> DefaultRemove, rmsp |-> "default"]
-FalsePol == [kind |-> "false", total |-> F, redirect |-> N, raise |-> TRUE, remove |-> DefaultRemove, rmsp |-> "default"]
+R(t, r, raise, rm, sp, ct) == [kind |-> "retry", total |-> t, redirect |-> r, raise |-> raise, remove |-> rm, rmsp |-> sp, rmct |-> ct]
+Rd(t, r, raise) == R(t, r, raise, DefaultRemove, "default", "default")
+I(n) == [kind |-> "int", total |-> n, redirect |-> N, raise |-> TRUE, remove |-> DefaultRemove, rmsp |-> "default",
+         rmct |-> "default"]
+FalsePol == [kind |-> "false", total |-> F, redirect |-> N, raise |-> TRUE, remove |-> DefaultRemove, rmsp |-> "default",
+             rmct |-> "default"]
 
 BPols == << NonePol, FalsePol, I(0), I(1), I(2),
             Rd(10, F, TRUE), Rd(10, 0, TRUE), Rd(10, 1, TRUE), Rd(10, 2, TRUE),
@@ -40,10 +42,16 @@ BPols == << NonePol, FalsePol, I(0), I(1), I(2),
             Rd(F, N, TRUE), Rd(0, N, TRUE), Rd(1, N, TRUE), Rd(2, N, TRUE),
             Rd(0, N, FALSE), Rd(1, N, FALSE), Rd(2, N, FALSE),
             Rd(1, 2, TRUE), Rd(2, 1, FALSE), Rd(N, 2, TRUE), Rd(10, N, TRUE) >>
-\* policies for the header scenarios: enough budget, different remove sets (and spellings of their members)
-HPols == << NonePol, Rd(10, N, TRUE),
-            R(10, N, TRUE, {"xcustom"}, "canon"), R(10, 6, TRUE, {"xcustom", "auth"}, "upper"),
-            R(10, N, TRUE, {}, "canon"), R(6, N, FALSE, DefaultRemove, "upper"), R(10, N, TRUE, DefaultRemove, "lower") >>
+\* policies for the header scenarios: enough budget; how the remove set is supplied = container type x spelling
+\* of the names in it (index of the custom ones: 2 + 4 * (container - 1) + spelling)
+RmSps == <<"canon", "lower", "upper", "mixed">>
+RmCts == <<"list", "tuple", "set", "frozenset">>
+HPols == << NonePol, Rd(10, N, TRUE) >>
+         \o [i \in 1..16 |-> R(10, N, TRUE, {"xcustom", "auth"}, RmSps[1 + ((i - 1) % 4)], RmCts[1 + ((i - 1) \div 4)])]
+         \o [i \in 1..4 |-> R(10, 6, TRUE, DefaultRemove \cup {"xcustom"}, RmSps[i], "defaultplus")]   \* Retry.DEFAULT_... | {extra}
+         \o << R(10, N, TRUE, {}, "canon", "list"), R(6, N, FALSE, DefaultRemove, "upper", "tuple"),
+               R(10, N, TRUE, {"xcustom"}, "mixed", "frozenset") >>
+HPolsSmall == {1, 3, 15, 21, 23}      \* none, list/canon, frozenset/canon, DEFAULT|{extra}/upper, empty list
 
 Placed(p, pl) == CASE pl = 1 -> <<p, NonePol>>                       \* request level
                    [] pl = 2 -> <<NonePol, p>>                       \* pool / manager constructor
@@ -93,16 +101,16 @@ BudgetCfgs ==
     { Cfg((((c * 32 + p) * 5 + pl) * 2 + f) * 3 + m, Clients[c], Placed(BPols[p], pl), pl = 4, f = 1, MB[m], 1, H0, Start)
         : c \in 1..3, p \in 1..Len(BPols), pl \in 1..4, f \in 0..1, m \in 1..2 }
 
-HId(t) == 100000 + (((((t[1] * 8 + t[2]) * 5 + t[3]) * 5 + t[4]) * 7 + t[5]) * 8 + t[6]) * 3 + t[7]
+HId(t) == 100000 + (((((t[1] * 32 + t[2]) * 5 + t[3]) * 5 + t[4]) * 7 + t[5]) * 8 + t[6]) * 3 + t[7]
 \* (shard and client filters are applied to the index tuples, before the records are built)
 HeaderCfgsOf(pols, sps, cas, vs) ==
     { Cfg(HId(t), Clients[t[1]], Placed(HPols[t[2]], t[3]), t[3] = 4, TRUE, MB[t[7]], t[5], HVariant(t[6], Sps[t[4]]), Start)
         : t \in { t \in (1..3) \X pols \X {1, 2, 4} \X sps \X cas \X vs \X (1..2) :
-                     VariantOK(t[6], t[5]) /\ InShard(HId(t)) /\ (ClientFilter = "all" \/ Clients[t[1]] = ClientFilter) } }
+                     VariantOK(t[6], t[5]) /\ InShard(HId(t)) /\ (HId(t) * 11 + Seed) % CfgKH = 0 /\ (ClientFilter = "all" \/ Clients[t[1]] = ClientFilter) } }
 HeaderCfgs == HeaderCfgsOf(1..Len(HPols), 1..4, 1..6, 1..NVariants)
 \* the Model ignores spelling and the container type: one spelling, HTTPHeaderDict carriers with and without defaults
 HeaderCfgsSmall == IF Alpha = "full" THEN HeaderCfgsOf(1..Len(HPols), {1}, {2, 4, 6}, 1..NVariants)
-                   ELSE HeaderCfgsOf({1, 3, 4, 5}, {1}, {2, 6}, {1, 2, 5, 7})
+                   ELSE HeaderCfgsOf(HPolsSmall, {1}, {2, 6}, {1, 2, 5, 7})
 
 \* other start URLs (letter case, explicit port, https) and the 303 + file body regression (D5)
 ExtraCfgs ==
